@@ -52,7 +52,7 @@ def rw_sites(ctx) -> list[FuncInfo]:
 def write_wrappers(ctx) -> dict[str, tuple[int | None, int | None]]:
     """Repo functions that consist of writing a parameter to a parameter path: qname -> (path idx, payload idx)."""
     out = {}
-    for fn in ctx.prog.functions.values():
+    for fn in ctx.prog.live_functions():
         if fn.cls is not None:
             continue
         params = fn.positional_params()
